@@ -753,6 +753,10 @@ class Gen:
             A.Assign(A.Index(A.Index(V(a), A.Int(1)), A.Int(0)), A.Str("m")),
             A.pr(V(a)), A.pr(A.Bin("===", V(a), V(b))), A.pr(A.Bin("==", V(a), A.Bin("+", V(b), A.lst()))),
             A.pr(A.Bin("===", V(a), A.Bin("+", V(b), A.lst()))),
+            A.OpAssign("+", V(a), A.lst(self.expr(INT, ctx, 2))),
+            A.pr(V(a)), A.pr(V(b)), A.pr(A.Bin("===", V(a), V(b))),
+            A.Declare(V("o" + a), A.obj(("k", V(b)))), A.OpAssign("+", A.Prop(V("o" + a), "k", False), A.lst(A.Int(0))),
+            A.pr(V(b)), A.pr(A.Bin("===", A.Prop(V("o" + a), "k", False), V(b))),
         ]
 
     # ------------------------------------------------------------------ planned failures
